@@ -1102,8 +1102,15 @@ static int write_text(void *context, UChar *text, int32_t length, int fold, int 
                 }
             }
 
-            /* each folded segment, until the line is consumed */
             write_lines:
+            if (*tok == 0) {
+                /* the empty last line of a value that ends with a newline needs its line terminator, too */
+                if (u_fputc(UCHAR_NL, CONTEXT_UFILE(context)) != UCHAR_NL) {
+                    return CIF_ERROR;
+                }
+            }
+
+            /* each folded segment, until the line is consumed */
             while (*tok != 0) {
                 int len = fold_line(tok, fold, target_length, FOLDING_WINDOW, prefix);
 
